@@ -24,3 +24,81 @@ def describe_model(m):
         group.append((e, tuple(str(c.name) for c in t.factor.components)))
     resp = None if m.response is None else m.response.term.name
     return resp, common, group
+
+
+# ---- whole-design summaries (C07, C08, C09, C15, C17) ---------------------------------------------
+def _mat(m):
+    import numpy as np
+
+    if m is None:
+        return None
+    a = np.asarray(m.design_matrix, dtype=float)
+    return a[:, None] if a.ndim == 1 else a
+
+
+def _params(dm):
+    """Remembered numeric state of every stateful transform, as flat float lists."""
+    import numpy as np
+    from vf import rich
+
+    out = []
+    for obj in rich.stateful_objects(dm):
+        vals = []
+        for k, v in sorted(vars(obj).items()):
+            if isinstance(v, dict):
+                for kk in sorted(v):
+                    vals.append(float(v[kk]))
+            elif isinstance(v, np.ndarray):
+                vals.extend(float(t) for t in v.ravel())
+            elif isinstance(v, (int, float, np.integer, np.floating)) and not isinstance(v, bool):
+                vals.append(float(v))
+        out.append((type(obj).__name__, vals))
+    return out
+
+
+def design_summary(dm):
+    s = {"response": _mat(dm.response), "common": _mat(dm.common), "group": _mat(dm.group)}
+    s["response_meta"] = None if dm.response is None else (dm.response.name, dm.response.kind, None if dm.response.levels is None else list(dm.response.levels))
+    s["common_terms"] = None if dm.common is None else list(dm.common.terms)
+    s["common_labels"] = None if dm.common is None else [l for t in dm.common.terms.values() for l in t.labels]
+    s["common_slices"] = None if dm.common is None else [(k, v.start, v.stop) for k, v in dm.common.slices.items()]
+    s["group_terms"] = None if dm.group is None else list(dm.group.terms)
+    s["group_labels"] = None if dm.group is None else [l for t in dm.group.terms.values() for l in t.labels]
+    s["group_slices"] = None if dm.group is None else [(k, v.start, v.stop) for k, v in dm.group.slices.items()]
+    s["groups"] = None if dm.group is None else [list(t.groups) for t in dm.group.terms.values()]
+    s["params"] = _params(dm)
+    return s
+
+
+def compare_summaries(a, b, perm=None, exact=False, rtol=1e-9, atol=1e-9):
+    """Differences between two summaries; `perm`: b's rows are a's rows taken in this order."""
+    import numpy as np
+
+    diffs = []
+    for key in ("response_meta", "common_terms", "common_labels", "common_slices", "group_terms", "group_labels", "group_slices", "groups"):
+        if a[key] != b[key]:
+            diffs.append((key, f"{a[key]} vs {b[key]}"))
+    for key in ("response", "common", "group"):
+        ma, mb = a[key], b[key]
+        if (ma is None) != (mb is None):
+            diffs.append((key, "present in one design only"))
+            continue
+        if ma is None:
+            continue
+        want = ma if perm is None else ma[perm]
+        if want.shape != mb.shape:
+            diffs.append((key, f"shape {want.shape} vs {mb.shape}"))
+        elif exact:
+            if not np.array_equal(want, mb, equal_nan=True):
+                diffs.append((key, "values differ (exact comparison)"))
+        elif not np.allclose(want, mb, rtol=rtol, atol=atol, equal_nan=True):
+            diffs.append((key, "values differ"))
+    pa, pb = a["params"], b["params"]
+    if [p[0] for p in pa] != [p[0] for p in pb] or [len(p[1]) for p in pa] != [len(p[1]) for p in pb]:
+        diffs.append(("params", "different transform objects"))
+    else:
+        for (n1, v1), (_, v2) in zip(pa, pb):
+            ok = np.array_equal(v1, v2) if exact else np.allclose(v1, v2, rtol=1e-9, atol=1e-12)
+            if not ok:
+                diffs.append(("params", f"{n1}: {v1[:4]} vs {v2[:4]}"))
+    return diffs
